@@ -7,7 +7,7 @@
 use crate::util::*;
 use crate::world::*;
 use assets_manager::{source::FileSystem, source::OwnedDirEntry, AssetCache};
-use std::time::Duration;
+use std::time::{Duration, Instant};
 
 #[derive(Debug, Clone)]
 pub struct Task {
@@ -188,21 +188,31 @@ pub fn run(a: &Args) {
         cache.load::<TInt>("a").unwrap();
         cache.hot_reload();
         drop(cache);
-        std::thread::sleep(Duration::from_millis(300));
-        let before = EVENTS_HANDLED.load(Ordering::SeqCst);
+        // keep sending for up to 3 s: the channel must get disconnected (the reloader left), or at
+        // least nothing may be handled any more once a grace period of 1 s is over
+        let t0 = Instant::now();
+        let mut gone = false;
+        let mut at_grace: Option<usize> = None;
         let mut accepted = 0;
-        for _ in 0..20 {
-            if mem.send(vec![OwnedDirEntry::File("a".into(), "x".into())]) {
-                accepted += 1;
+        while t0.elapsed() < Duration::from_millis(3000) {
+            if t0.elapsed() >= Duration::from_millis(1000) && at_grace.is_none() {
+                at_grace = Some(EVENTS_HANDLED.load(Ordering::SeqCst));
             }
-            std::thread::sleep(Duration::from_millis(5));
+            if !mem.send(vec![OwnedDirEntry::File("a".into(), "x".into())]) {
+                gone = true;
+                break;
+            }
+            accepted += 1;
+            std::thread::sleep(Duration::from_millis(20));
         }
-        std::thread::sleep(Duration::from_millis(200));
-        let handled = EVENTS_HANDLED.load(Ordering::SeqCst) - before;
+        let handled = match at_grace {
+            Some(h) if !gone => EVENTS_HANDLED.load(Ordering::SeqCst) - h,
+            _ => 0,
+        };
         evals += 1;
-        samples.push(format!("{{\"kind\": \"events sent 0.3 s after the drop\", \"accepted_by_the_channel\": {accepted}, \"handled_by_a_reloader\": {handled}}}"));
+        samples.push(format!("{{\"kind\": \"events sent after the drop\", \"accepted_before_disconnect\": {accepted}, \"disconnected\": {gone}, \"handled_after_1s\": {handled}}}"));
         if handled > 0 {
-            violations.push(("reloader-alive-after-drop".into(), format!("{handled} of 20 events sent 0.3 s after the cache was dropped were still handled by its reloader thread")));
+            violations.push(("reloader-alive-after-drop".into(), format!("the event channel of a dropped cache was still connected after 3 s and {handled} events sent more than 1 s after the drop were handled by its reloader thread")));
         }
         std::mem::forget(mem);
     }
